@@ -55,9 +55,13 @@ class Replayer(object):
     def real_key(self, k):
         """model key (token sequence) -> real key string"""
         out = []
+        # the day folder is the one the recording's own id names (a run may cross midnight)
+        day = self.day
+        if k and k[-1] in self.ids:
+            day = self.ids[k[-1]].split('/')[-2]
         for t in k:
             if t in TOK:
-                out.append(TOK[t].replace('DAY', self.day))
+                out.append(TOK[t].replace('DAY', day))
             elif t in self.ids:
                 out.append(self.ids[t].rsplit('/', 1)[1])
             elif t == 'n9':
